@@ -19,7 +19,10 @@ mod oracle;
 mod refjson;
 mod runner;
 mod sched;
+mod sim_arena;
 mod sim_cache;
+mod sim_io;
+mod sinks;
 mod supervise;
 mod trace;
 
@@ -30,6 +33,19 @@ pub static SIMS: &[SimDef] = &[SimDef {
     prop: "C18",
     run: sim_cache::run,
     about: "publish-once caches of LazyValue / OwnedLazyValue under 2-3 concurrent readers with spurious weak-CAS failures",
+    enumerate: None,
+}, SimDef {
+    name: "arena",
+    prop: "C16",
+    run: sim_arena::run,
+    about: "values sharing a parsed arena under clone / take / insert / send / drop orders across 1-3 threads",
+    enumerate: None,
+}, SimDef {
+    name: "io",
+    prop: "C05",
+    run: sim_io::run,
+    about: "serialization of typed value trees through every writer stack under writer fault sequences",
+    enumerate: Some(sim_io::enumerate_faults),
 }];
 
 pub fn find_sim(name: &str) -> Option<&'static SimDef> {
@@ -52,7 +68,17 @@ pub fn config_name() -> &'static str {
     }
 }
 
+struct FixedHashSeed;
+impl ahash::random_state::RandomSource for FixedHashSeed {
+    fn gen_hasher_seed(&self) -> usize {
+        0x5eed
+    }
+}
+
 fn init_worker_process() {
+    // randomised hashing is a source of nondeterminism (iteration and drop order of mutated DOM
+    // objects): together with `--cfg fuzzing` (fixed ahash keys) this makes it a pure function of the run
+    let _ = ahash::random_state::set_random_source(FixedHashSeed);
     crash::install();
     runner::install_panic_hook();
     sched::install_hooks();
@@ -80,6 +106,7 @@ fn main() {
                 max_secs: arg(&args, "--max-secs").and_then(|s| s.parse().ok()).unwrap_or(1e9),
                 max_violations: arg(&args, "--max-violations").and_then(|s| s.parse().ok()).unwrap_or(4),
                 hash_log: arg(&args, "--hash-log"),
+                enumerate: flag(&args, "--enumerate"),
             })
         }
         "list-sims" => {
